@@ -2,6 +2,7 @@ package rules
 
 import (
 	"fmt"
+	"go/token"
 	"go/types"
 	"strings"
 
@@ -119,6 +120,71 @@ func runUpdater(c *core.Ctx) []core.Obligation {
 				obs = append(obs, core.Ob("R-UPDATER", construct, c.Pos(call.Pos()), core.FuncName(fn), core.Discharged, "the returned value is used wherever the flag is"))
 			}
 		})
+	}
+	obs = append(obs, bothDirections(c)...)
+	return obs
+}
+
+
+// bothDirections (after round-7 seed C12-r7m1, the `vb[i]` against `va` edges line removed from both cell-to-cell
+// distance functions): the extreme distance between two cells is attained between a vertex of ONE cell and an edge of
+// the OTHER, in either direction - 32 (vertex, edge) pairs as the comment in the source says. Each of the two functions
+// must therefore feed its updater both with a vertex of the first cell against the edges of the second and with a
+// vertex of the second against the edges of the first; with one direction only the answer is not even symmetric.
+func bothDirections(c *core.Ctx) []core.Obligation {
+	var obs []core.Obligation
+	for _, name := range []string{"DistanceToCell", "MaxDistanceToCell"} {
+		construct := "(s2.Cell)." + name + ":both-directions"
+		fn := c.Fn("s2", "Cell", name)
+		if fn == nil {
+			obs = append(obs, core.Ob("R-UPDATER", construct, "-", "", core.Violated, "unresolved anchor"))
+			continue
+		}
+		arrayOf := func(v ssa.Value) ssa.Value {
+			ld, ok := v.(*ssa.UnOp)
+			if !ok || ld.Op != token.MUL {
+				return nil
+			}
+			ia, ok := ld.X.(*ssa.IndexAddr)
+			if !ok {
+				return nil
+			}
+			return ia.X
+		}
+		type dir struct{ vertex, edge ssa.Value }
+		seen := map[dir]bool{}
+		ncalls := 0
+		core.AllInstrs(fn, func(in ssa.Instruction) {
+			call, ok := in.(*ssa.Call)
+			if !ok || core.StaticCallee(call) == nil || len(call.Call.Args) < 3 {
+				return
+			}
+			nm := core.StaticCallee(call).Name()
+			if nm != "UpdateMinDistance" && nm != "UpdateMaxDistance" {
+				return
+			}
+			v, e0, e1 := arrayOf(call.Call.Args[0]), arrayOf(call.Call.Args[1]), arrayOf(call.Call.Args[2])
+			if v == nil || e0 == nil || e0 != e1 {
+				return
+			}
+			ncalls++
+			seen[dir{v, e0}] = true
+		})
+		ok := false
+		for d := range seen {
+			if d.vertex != d.edge && seen[dir{d.edge, d.vertex}] {
+				ok = true
+			}
+		}
+		switch {
+		case ncalls == 0:
+			obs = append(obs, core.Ob("R-UPDATER", construct, c.Pos(fn.Pos()), core.FuncName(fn), core.Violated, "unresolved anchor: no vertex-against-edge update found"))
+		case ok:
+			obs = append(obs, core.Ob("R-UPDATER", construct, c.Pos(fn.Pos()), core.FuncName(fn), core.Discharged, fmt.Sprintf("%d updates: vertices of each cell against the edges of the other", ncalls)))
+		default:
+			obs = append(obs, core.Ob("R-UPDATER", construct, c.Pos(fn.Pos()), core.FuncName(fn), core.Violated,
+				"only the vertices of one cell are tested against the edges of the other: when the extreme point is a vertex of the other cell over the interior of one of this cell's edges it is never examined, so the minimum comes out too large (the maximum too small) and a.DistanceToCell(b) differs from b.DistanceToCell(a)"))
+		}
 	}
 	return obs
 }
